@@ -52,6 +52,10 @@ type Authority struct {
 	Storage *MemStorage
 	signer  *nonprod.Signer            // memkm: the key store
 	memCA   *memca.CertificateAuthority // memca: the certificate store
+	// LongLived: the storage-backed CA object is kept across commands and probes (a long-running
+	// signer process) instead of being re-created per command.
+	LongLived bool
+	longCA    *gcsca.CertificateAuthority
 }
 
 // NewAuthority creates an empty authority.
@@ -107,6 +111,8 @@ func (a *Authority) Clone() (*Authority, error) {
 	if a.Storage != nil {
 		b.Storage = FromSnapshot(a.Storage.Snapshot())
 	}
+	// a long-lived CA object cannot be cloned (its cached state is private): clones start a new process
+	b.LongLived = a.LongLived
 	if a.signer != nil {
 		for k, v := range a.signer.Keys {
 			b.signer.LoadKey(k, v)
@@ -159,7 +165,14 @@ func (a *Authority) components(t *Tap) (km cmd.CommandComponent, ca cmd.CommandC
 		a.Storage.mu.Lock()
 		a.Storage.T = t
 		a.Storage.mu.Unlock()
-		ca = &gcsca.CertificateAuthority{Storage: a.Storage}
+		if a.LongLived {
+			if a.longCA == nil {
+				a.longCA = &gcsca.CertificateAuthority{Storage: a.Storage}
+			}
+			ca = a.longCA
+		} else {
+			ca = &gcsca.CertificateAuthority{Storage: a.Storage}
+		}
 		flags = append(flags, "--bucket", bucket, "--root_path", rootPath, "--cert_dir", certDir)
 	default:
 		ca = &localca.T{CA: &gcsca.CertificateAuthority{Storage: &local.StorageClient{}}}
@@ -211,7 +224,11 @@ func (a *Authority) Loaded() (*keys.Context, error) {
 	case "memca":
 		kc.CA = a.memCA
 	case "gcsca":
-		kc.CA = &gcsca.CertificateAuthority{Storage: FromSnapshot(a.Storage.Snapshot()), PrivateBucket: bucket, RootPath: rootPath, SigningCertDirInGCS: certDir}
+		if a.LongLived && a.longCA != nil {
+			kc.CA = a.longCA
+		} else {
+			kc.CA = &gcsca.CertificateAuthority{Storage: FromSnapshot(a.Storage.Snapshot()), PrivateBucket: bucket, RootPath: rootPath, SigningCertDirInGCS: certDir}
+		}
 	default:
 		kc.CA = &gcsca.CertificateAuthority{Storage: &local.StorageClient{Root: filepath.Join(a.Dir, "bucketroot")}, PrivateBucket: bucket, RootPath: rootPath, SigningCertDirInGCS: certDir}
 	}
